@@ -49,7 +49,8 @@ def build_oracle(ctx):
 
 def oracle_check(exe, files):
     """run `oracle check` on a batch; returns {file: dict(ok, parse, roundtrip, viols, data, types)}"""
-    rc, out, err = run_limited([exe, 'check'] + files, timeout=300, cap=256 << 20)
+    # the extracted checker recurses over instruction lists: give it the whole stack limit, not the 8 MB default
+    rc, out, err = run_limited(['prlimit', '--stack=unlimited', exe, 'check'] + files, timeout=300, cap=256 << 20)
     res = {}
     cur = None
     for l in out.decode('utf-8', 'replace').split('\n'):
@@ -75,9 +76,14 @@ def oracle_check(exe, files):
     for f, c in res.items():
         if not c['ok'] and not c['parse'] and not c['viols'] and not c['roundtrip']:
             c['parse'] = 'PARSE 0: the checker died on this module (rc=%d) %s' % (rc, txt(err)[-300:])
-    for f in files:
-        if f not in res:
-            res[f] = dict(ok=False, parse='PARSE 0: checker produced no verdict (rc=%d) %s' % (rc, txt(err)[-300:]), roundtrip=None, viols=[], data={}, types={})
+    missing = [f for f in files if f not in res]
+    if missing and len(files) > 1:
+        # the batch died on one module: only that one is to blame, the others get their own run
+        for f in missing:
+            res.update(oracle_check(exe, [f]))
+        missing = []
+    for f in missing:
+        res[f] = dict(ok=False, parse='PARSE 0: checker produced no verdict (rc=%d) %s' % (rc, txt(err)[-300:]), roundtrip=None, viols=[], data={}, types={})
     return res
 
 
